@@ -126,6 +126,35 @@ def case_eigh(T, n, ks, algs, complex_=False):
                 _guard(T, tag, run)
 
 
+def case_eig_degenerate_selfadjoint(T, alg):
+    """a self-adjoint operator with a repeated eigenvalue, a (I - p p^T) + b p p^T: the property asks for orthonormal vectors whatever algorithm
+    is named.  The general eigensolver (LAPACK geev) is modelled by what its contract allows: unit-norm eigenvectors that are not orthogonal
+    inside the degenerate eigenspace"""
+    from fractions import Fraction as F
+    from cola.linalg.unary.unary import Eig, Eigh
+    dt = 'float64'
+    u1, u2, pp = [F(2, 3), F(1, 3), F(-2, 3)], [F(2, 3), F(-2, 3), F(1, 3)], [F(1, 3), F(2, 3), F(2, 3)]
+    p2 = [(3 * x + 4 * y) / 5 for x, y in zip(u1, u2)]
+    P = K.mat(T, [[K.cst(T, c[i]) for c in (u1, p2, pp)] for i in range(3)], dt)
+    Vo = K.mat(T, [[K.cst(T, c[i]) for c in (u1, u2, pp)] for i in range(3)], dt)
+    a = T.var("a", positive=True)
+    g = T.var("gap", positive=True)
+    T.assume(g >= 1e-2)
+    w = [a, a, a + g]
+    z = K.S(T, 0)
+    A = Vo @ K.mat(T, [[w[i] if i == j else z for j in range(3)] for i in range(3)], dt) @ Vo.T
+    if T.sym:
+        from symx import lapack
+        lapack.register("eig", K.raw(T, A), (K.raw(T, K.mat(T, [w], dt))[0], K.raw(T, P)))
+        lapack.register("eigh", K.raw(T, A), (K.raw(T, K.mat(T, [w], dt))[0], K.raw(T, Vo)))
+    Aop = cola.SelfAdjoint(ops.Dense(A))
+    E_ = _eigs()
+    algo = {"Eig": Eig(), "Eigh": Eigh(), "Auto": cola.linalg.Auto()}[alg]
+    for k, which in ((3, "LM"), (2, "SM")):
+        tag = f"eig(k={k},{which},{alg})"
+        _guard(T, tag, lambda: check_pairs(T, tag, A, *E_.eig(Aop, k, which, algo), w, k, which, True))
+
+
 def case_eig_general(T, perm, ks):
     """A = P diag(w) P^-1, LAPACK returns the spectrum in the order `perm`"""
     from cola.linalg.unary.unary import Eig
@@ -327,6 +356,8 @@ def case_krylov(T, which, k, sel, max_iters, complex_=False, scaled=False):
 
 def cases(tier, seed):
     out = []
+    for alg in ("Eig", "Eigh", "Auto"):
+        out.append((f"degenerate-selfadjoint:{alg}", case_eig_degenerate_selfadjoint, dict(alg=alg), dict(partial_ok=True)))
     out.append(("eigh:n2", case_eigh, dict(n=2, ks=[1, 2], algs=["Eigh", "Auto"])))
     out.append(("eigh:n3", case_eigh, dict(n=3, ks=[1, 2, 3], algs=["Eigh"])))
     out.append(("eigh-complex:n2", case_eigh, dict(n=2, ks=[1, 2], algs=["Eigh", "Auto"], complex_=True)))
